@@ -30,8 +30,6 @@ static mut NCELLS: usize = 0;
 static mut THREAD: usize = 0;
 /// failed compare-exchange attempts per thread (index = thread number, 1-based, up to 7)
 static mut CAS_FAILS: [u32; 8] = [0; 8];
-/// Upper bound for guessed values of cells created with `mask` u64::MAX (0 = unrestricted).
-static mut GUESS_BOUND: u64 = 0;
 
 #[derive(Debug)]
 pub struct Cell {
@@ -91,13 +89,8 @@ impl Cell {
     }
     unsafe fn register(&self) {
         let p = self as *const Cell;
-        let mut i = 0;
-        while i < NCELL {
-            if i < NCELLS && CELLS[i] == p {
-                return;
-            }
-            i += 1;
-        }
+        macro_rules! t { ($($i:expr),*) => { $( if $i < NCELLS && CELLS[$i] == p { return; } )* } }
+        t!(0, 1, 2, 3, 4, 5, 6, 7, 8, 9, 10, 11, 12, 13, 14, 15);
         assert!(NCELLS < NCELL, "verif_sync: too many shared cells");
         CELLS[NCELLS] = p;
         NCELLS += 1;
@@ -134,13 +127,8 @@ pub fn begin_register() {
 /// Phase 2: guess the initial value of every registered cell for rounds 1..K.
 pub fn begin_threads() {
     unsafe {
-        let mut i = 0;
-        while i < NCELL {
-            if i < NCELLS {
-                (*CELLS[i]).guess();
-            }
-            i += 1;
-        }
+        macro_rules! t { ($($i:expr),*) => { $( if $i < NCELLS { (*CELLS[$i]).guess(); } )* } }
+        t!(0, 1, 2, 3, 4, 5, 6, 7, 8, 9, 10, 11, 12, 13, 14, 15);
         MODE = 2;
         ROUND = 0;
         THREAD = 0;
@@ -169,21 +157,11 @@ pub fn cas_fails(thread: usize) -> u32 {
 /// final state (last round) and no further scheduling choices are made.
 pub fn assume_consistent() {
     unsafe {
-        let mut i = 0;
-        while i < NCELL {
-            if i < NCELLS {
-                (*CELLS[i]).consistent();
-            }
-            i += 1;
-        }
+        macro_rules! t { ($($i:expr),*) => { $( if $i < NCELLS { (*CELLS[$i]).consistent(); } )* } }
+        t!(0, 1, 2, 3, 4, 5, 6, 7, 8, 9, 10, 11, 12, 13, 14, 15);
         ROUND = K - 1;
         MODE = 3;
     }
-}
-// MODE 3 behaves like 2 for slot selection but without scheduling choices.
-#[inline]
-unsafe fn versioned() -> bool {
-    MODE >= 2
 }
 
 #[derive(Debug)]
